@@ -21,6 +21,21 @@ func genCPUProgram(r *engine.Rand, sc *engine.Scenario, n int) {
 	g := &progGen{r: r, base: base}
 	g.emitStackSetup()
 	for i := 0; i < n; i++ {
+		if r.Chance(1, 60) {
+			// the register values with which the test ROMs shipped in the repository report their verdict
+			// (B,C,D,E,H,L = 3,5,8,13,21,34 or 0x42 six times) and the self-loads those ROMs and debuggers
+			// use as markers (LD B,B ...): ordinary one-cycle loads like any other
+			if r.Bool() {
+				g.emit(0x01, 0x05, 0x03, 0x11, 0x0d, 0x08, 0x21, 0x22, 0x15)
+			} else {
+				g.emit(0x01, 0x42, 0x42, 0x11, 0x42, 0x42, 0x21, 0x42, 0x42)
+			}
+			for j, k := 0, r.Range(1, 3); j < k; j++ {
+				g.emit(engine.Pick(r, []uint8{0x40, 0x40, 0x49, 0x52, 0x5b, 0x64, 0x6d, 0x7f}))
+				g.emit(engine.Pick(r, []uint8{0x00, 0x3c, 0x3d, 0x2f}))
+			}
+			continue
+		}
 		if r.Chance(1, 5) {
 			// the tested instruction directly after a jump/call/return (see emitPair)
 			cb := r.Chance(1, 2)
@@ -410,6 +425,9 @@ func executeCPU(id string, sc *engine.Scenario, focus map[string]bool) *engine.R
 			}
 			if !focus[mm.kind] {
 				continue
+			}
+			if sc.Class == "oam-pointer-lcd-on" && mm.kind == "if" {
+				continue // the LCD raises its own requests
 			}
 			res.Fail(fmt.Sprintf("%s/%s/%s", id, mm.kind, key), l.m.N, "%s", mm.detail)
 			return false
